@@ -123,24 +123,26 @@ Theorem C06_fill_even_odd :
 Proof. exact (fun enc addr => conj (fill_even_parity enc addr) (fill_odd_parity enc addr)). Qed.
 Print Assumptions C06_fill_even_odd.
 
-(* .align c, c >= 1: k zero bytes where k is the least k >= 0 with (addr + k) mod c = 0 *)
+(* .align c, 1 <= c < 2^16: k zero bytes where k is the least k >= 0 with (addr + k) mod c = 0 *)
 Theorem C06_fill_align :
-  forall enc c addr, 1 <= c ->
+  forall enc c addr, 1 <= c < 65536 ->
   emit enc (DMeta ".align" [(false, c)]) addr = Out [] (zero_bytes (Z.to_nat ((- addr) mod c))) /\
   (let k := (- addr) mod c in
    0 <= k < c /\ (addr + k) mod c = 0 /\ forall k', 0 <= k' -> (addr + k') mod c = 0 -> k <= k').
-Proof. exact (fun enc c addr H => conj (align_pos enc c addr H) (align_least c addr H)). Qed.
+Proof. exact (fun enc c addr H => conj (align_pos enc c addr H) (align_least c addr (proj1 H))). Qed.
 Print Assumptions C06_fill_align.
 
-(* .align 0 is an error diagnostic, not a crash; a negative count is refused *)
+(* .align 0 is an error diagnostic, not a crash *)
 Theorem C06_align_zero_is_error :
   forall enc addr, emit enc (DMeta ".align" [(false, 0)]) addr = Out [(E, "value-out-of-bounds")] [].
 Proof. exact align_zero. Qed.
 Print Assumptions C06_align_zero_is_error.
 
+(* the count is a 16-bit quantity like the counts of .blkb / .blkw: negative or >= 2^16 is refused (no attempt
+   to build a fill of that size) *)
 Theorem C06_align_negative :
-  forall enc c addr, c < 0 -> emit enc (DMeta ".align" [(false, c)]) addr = Raised [(E, "value-out-of-bounds")].
-Proof. exact align_negative. Qed.
+  forall enc c addr, c < 0 \/ 65536 <= c -> emit enc (DMeta ".align" [(false, c)]) addr = Raised [(E, "value-out-of-bounds")].
+Proof. exact align_refuse. Qed.
 Print Assumptions C06_align_negative.
 
 (* ---- .ascii / .asciz (parametric in the codec) ------------------------------------------------- *)
